@@ -1162,7 +1162,11 @@ def lock_discipline(chk, rule: str, rels=None):
         except SyntaxError:
             continue
         for n in ast.walk(raw):
-            if isinstance(n, ast.Assign) and isinstance(n.value, ast.Call) and (dotted(n.value.func) or "") in ("threading.Lock", "Lock") and not n.value.args:
+            is_plain = isinstance(n, ast.Assign) and isinstance(n.value, ast.Call) and (
+                ((dotted(n.value.func) or "") in ("threading.Lock", "Lock") and not n.value.args) or
+                ((dotted(n.value.func) or "") in ("threading.Condition", "Condition") and len(n.value.args) == 1 and isinstance(n.value.args[0], ast.Call)
+                 and (dotted(n.value.args[0].func) or "") in ("threading.Lock", "Lock")))      # a condition over a non-re-entrant lock
+            if is_plain:
                 for t in n.targets:
                     if isinstance(t, ast.Attribute):
                         plain.add(t.attr)
